@@ -25,6 +25,7 @@ func init() {
 			ruleKeyedStores(r)
 			ruleForEachVisibility(r)
 			ruleFreshMaps(r)
+			ruleStepSamplesAccumulate(r, []string{"vectorAggIterator", "vectorAggHeapIterator", "rangeAggIterator"})
 		},
 	})
 }
